@@ -216,6 +216,12 @@ pub fn gen_case(seed: u64, o: &GenOpts) -> StoreCase {
         post_mod: *r.pick(&[0u32, 4, 7]),
         default_status: *r.pick(&[0u8, 0, 1]),
     };
+    // a metric may keep NO observation of a class (capacity 0): classes that exist but are
+    // empty (own random stream)
+    let mut cfg = cfg;
+    if Rng::new(seed ^ 0xCA90_0000_0000_0005).chance(1, 8) {
+        cfg.cap = 0;
+    }
     let n_ops = if r.chance(1, 3) {
         r.range(1, 3) as usize
     } else {
